@@ -596,7 +596,8 @@ static int index_or_rindex (hawk_rtx_t* rtx, int rindex)
 				else if (boundary < 0) boundary = len0 + boundary + 1;
 			}
 
-			if (boundary > len0 || boundary <= 0)
+			/* a forward search may begin right behind the last character. the empty string is found there */
+			if (boundary <= 0 || boundary > (hawk_int_t)len0 + (rindex? 0: 1))
 			{
 				ptr = HAWK_NULL;
 			}
@@ -643,7 +644,8 @@ static int index_or_rindex (hawk_rtx_t* rtx, int rindex)
 				else if (boundary < 0) boundary = len0 + boundary + 1;
 			}
 
-			if (boundary > len0 || boundary <= 0)
+			/* a forward search may begin right behind the last character. the empty string is found there */
+			if (boundary <= 0 || boundary > (hawk_int_t)len0 + (rindex? 0: 1))
 			{
 				ptr = HAWK_NULL;
 			}
